@@ -236,7 +236,7 @@ pub fn gen_templates(rng: &mut Rng) -> (Vec<String>, Vec<(String, String)>) {
     let mut b = vec![];
     for i in 0..nb {
         let mk = |rng: &mut Rng, s: char| -> String {
-            match rng.below(11) {
+            match rng.below(12) {
                 0 => format!("B{i}:%{s}[0]"),
                 1 => format!("B{i}:%{s}[0],%{s}[1]"),
                 2 => format!("B{i}:%{s}?[2]"),
@@ -247,6 +247,7 @@ pub fn gen_templates(rng: &mut Rng) -> (Vec<String>, Vec<(String, String)>) {
                 7 => format!("[%{s}[0]|%{s}[1]]B{i}"),
                 8 => format!("B{i}:%{s}[0]-tail"),
                 9 => format!("CONST{i}"),
+                10 => format!("B#{i}:%{s}[0]"),
                 _ => format!("B{i}:%{s}[1]"),
             }
         };
@@ -678,6 +679,39 @@ pub fn c14_case(ctx: &mut Ctx, rng: &mut Rng) {
             return;
         }
         ctx.bucket(if trained { "user_row_with_trained_parameters" } else { "user_row_copied_unchanged" });
+        // independent of the model view: a 0,0,0 user row whose feature text equals a seed row's (and whose
+        // first character has the same category) expands to the same features, hence the same parameters
+        if trained && !bundled {
+            if let Some((fields, _)) = split4(line) {
+                let ucat = surf.chars().next().map(|c| ts.cat_of(c));
+                for (si, seed) in ts.seed.iter().enumerate() {
+                    if feat_text(&seed.1) == *feat && seed.0.chars().next().map(|c| ts.cat_of(c)) == ucat {
+                        if let Some((sf, _)) = llines.get(si).and_then(|l| split4(l)) {
+                            // The class ids may differ (feature strings pruned by training are interned again under
+                            // fresh, weightless ids), but the parameters must be equivalent: same word cost, and the
+                            // same matrix column (left id) and row (right id).
+                            let id = |x: &String| x.parse::<usize>().unwrap_or(usize::MAX);
+                            let (ul, ur, sl, sr) = (id(&fields[1]), id(&fields[2]), id(&sf[1]), id(&sf[2]));
+                            let mut dense: HashMap<(usize, usize), i64> = HashMap::new();
+                            for g in &got_cells {
+                                if g.len() == 3 {
+                                    dense.insert((g[0] as usize, g[1] as usize), g[2]);
+                                }
+                            }
+                            let cell = |r: usize, l: usize| *dense.get(&(r, l)).unwrap_or(&0);
+                            let same_col = (0..nr).all(|r| cell(r, ul) == cell(r, sl));
+                            let same_row = (0..nl).all(|l| cell(ur, l) == cell(sr, l));
+                            if sf[3] != fields[3] || !same_col || !same_row {
+                                ctx.violation("user_row_differs_from_identical_seed_row", "C14:user_row_differs_from_identical_seed_row", format!("user row {i} {:?} has the feature text and first-character category of seed row {si} {:?}, but its parameters are not equivalent: cost {} vs {}, matrix column of left id {ul} {} that of {sl}, matrix row of right id {ur} {} that of {sr}", line, llines[si], fields[3], sf[3], if same_col { "equals" } else { "differs from" }, if same_row { "equals" } else { "differs from" }), cj(""));
+                                return;
+                            }
+                            ctx.bucket("user_row_equals_identical_seed_row");
+                        }
+                        break;
+                    }
+                }
+            }
+        }
     }
     // the emitted files compile, and the compiled dictionary tokenizes the training sentences
     let char_def = if bundled { std::fs::read_to_string("/repo/vibrato/src/tests/resources/char.def").unwrap_or_default() } else { ts.char_def() };
@@ -837,10 +871,22 @@ pub fn c15_case(ctx: &mut Ctx, rng: &mut Rng) {
         }
         Ok(Err(e)) | Err(e) => return fail(ctx, "write_model", e),
     }
-    let mut m2 = match guarded(|| Model::read_model(bytes.as_slice()).map_err(|e| e.to_string())) {
+    let chunked = rng.chance(0.5);
+    let mut m2 = match guarded(|| {
+        if chunked {
+            // the stored model arrives in small pieces (pipe, decompression stream)
+            let rdr = crate::dictprops::ChunkReader { data: unsafe { std::mem::transmute::<&[u8], &'static [u8]>(bytes.as_slice()) }, pos: 0, rng: Rng(bytes.len() as u64 | 1), mode: 2, fail_at: None };
+            Model::read_model(rdr).map_err(|e| e.to_string())
+        } else {
+            Model::read_model(bytes.as_slice()).map_err(|e| e.to_string())
+        }
+    }) {
         Ok(Ok(m)) => m,
-        Ok(Err(e)) | Err(e) => return fail(ctx, "read_model", e),
+        Ok(Err(e)) | Err(e) => return fail(ctx, if chunked { "read_model_through_chunked_reader" } else { "read_model" }, e),
     };
+    if chunked {
+        ctx.bucket("model_read_through_chunked_reader");
+    }
     ctx.eval();
     let with_user = user_timing != 0 && !user_csv.is_empty();
     if with_user {
@@ -1169,6 +1215,13 @@ fn c17_check(ctx: &mut Ctx, text: &str, section: &str, rules: &[Rule], lists: &[
 }
 
 pub fn c17_case(ctx: &mut Ctx, rng: &mut Rng) {
+    if ctx.index % 8 == 7 {
+        // the rules as the trainer applies them (per section, unchanged features when no rule matches):
+        // a trained dictionary's bigram tuples against the independent rewrite + expansion
+        c18_dictionary(ctx, rng);
+        ctx.bucket("rules_applied_by_the_trainer_checked");
+        return;
+    }
     let s = |x: &str| x.to_string();
     // feature lists of length <= 3 over {a, b, c, *} (and the empty list)
     let fa = ["a", "b", "c", "*"];
